@@ -116,6 +116,7 @@ TxViol(e) ==
           \cup Check("C03", "confidentiality-iv-ciphertext-pad",
                      w.ok /\ p.ok /\ w.plen = 16 + Len(e.plain) /\ p.n = ConfPadLen(Len(p.msg)))
           \cup Check("C03", "inner-message-is-called-command", CmdOk(mm))
+          \cup Check("C06", "every-transmission-encodes-the-callers-command", CmdOk(mm))
           \cup Check("C03", "iv-fresh", Len(e.raw) >= 32 /\ Sub(e.raw, 16, 32) \notin ivs)
           \cup Check("C10", "retransmission-is-same-command",
                      att = 0 \/ (CmdOk(mm) /\ w.ok /\ w.sid = BmcSid /\ Has(e, "authOK") /\ e.authOK /\ p.ok))
@@ -126,6 +127,7 @@ TxViol(e) ==
        IN Check("C09", "sessionless-null-session",
                 w.ok /\ w.sid = <<0, 0, 0, 0>> /\ w.seq = <<0, 0, 0, 0>> /\ w.auth = 0 /\ w.enc = 0 /\ w.ptype = 0)
           \cup Check("C10", "retransmission-is-same-command", CmdOk(mm) /\ (att = 0 \/ e.raw = firstRaw))
+          \cup Check("C06", "every-transmission-encodes-the-callers-command", CmdOk(mm))
           \cup Check("C10", "tx-predicted-by-reference-model", PredSent.call = callN)
 
 RetViol(e) ==
@@ -143,7 +145,7 @@ RetViol(e) ==
                  \cup Check("C10", "final-code", e.code \notin TempCodes)
                  \cup Check("C10", "code-and-value-from-accepted-response",
                             (hasA /\ a.forCmd = cur /\ a.dec) =>
-                               (e.code = CcByte(a.cc) /\ ((a.cc = "ok" /\ a.bodyOK) => (~e.err /\ MarkerOf(e) = a.mk))))
+                               (e.code = CcByte(a.cc) /\ ((a.cc = "ok" /\ a.bodyOK) => (~e.err /\ (CmdTab[cur].nobody \/ MarkerOf(e) = a.mk)))))
                  \cup Check("C13", "success-has-valid-response", hasA /\ a.dec)
             ELSE {})
            \cup Check("C10", "result-predicted-by-reference-model",
